@@ -83,6 +83,32 @@ func structWidths(f *ast.File) map[string]map[string]int {
 	return out
 }
 
+// integer-typed fields of a struct, in declaration order
+func structFieldOrder(f *ast.File, name string) []string {
+	var out []string
+	for _, d := range f.Decls {
+		gd, ok := d.(*ast.GenDecl)
+		if !ok || gd.Tok != token.TYPE {
+			continue
+		}
+		for _, s := range gd.Specs {
+			ts := s.(*ast.TypeSpec)
+			st, ok := ts.Type.(*ast.StructType)
+			if !ok || ts.Name.Name != name {
+				continue
+			}
+			for _, fl := range st.Fields.List {
+				if id, ok := fl.Type.(*ast.Ident); ok && typeWidth[id.Name] != 0 {
+					for _, n := range fl.Names {
+						out = append(out, n.Name)
+					}
+				}
+			}
+		}
+	}
+	return out
+}
+
 // selField: x.F (x = receiver) -> "F"
 func selField(e ast.Expr, recv string) (string, bool) {
 	if u, ok := e.(*ast.UnaryExpr); ok && u.Op == token.AND {
@@ -300,6 +326,12 @@ func genLayouts() {
 			parts = append(parts, fmt.Sprintf("(%s, %d)", coqStr(it.name), it.w))
 		}
 		fmt.Fprintf(&sb, "Definition %s : list (string * Z) :=\n  [%s]%%Z.\n\n", sp.coqName, strings.Join(parts, "; "))
+		// the struct's integer fields in DECLARATION order (what encoding/json and reflection see)
+		var fnames []string
+		for _, fn := range structFieldOrder(f, sp.recv) {
+			fnames = append(fnames, coqStr(fn))
+		}
+		fmt.Fprintf(&sb, "Definition %s_fields : list string :=\n  [%s].\n\n", strings.TrimSuffix(sp.coqName, "_layout"), strings.Join(fnames, "; "))
 		info[sp.coqName] = len(items)
 	}
 	writeIfChanged("Layouts.v", sb.String())
